@@ -39,7 +39,7 @@ def gen_model(rng, size="small", feats=None):
         "endtime": p(0.35), "maxdur": p(0.3), "maxstops": p(0.3), "maxdist": p(0.3),
         "attrs": p(0.3), "precedence": p(0.4), "no_startloc": p(0.15), "penalties": p(0.6),
         "activation": p(0.5), "nonmetric": p(0.5), "tight": p(0.5), "user": False, "groups": False, "initial": False,
-        "colocated": False, "one_vehicle": False, "fixed_p": 0.3, "dgroups": False,
+        "colocated": False, "one_vehicle": False, "fixed_p": 0.3, "dgroups": p(0.3),
     }
     if feats:
         F.update(feats)
@@ -237,7 +237,16 @@ def gen_model(rng, size="small", feats=None):
                         seq[q + off:q + off] = blk
                         off += len(blk)
                 fixed_units = {ui for ui in {unit_of(units, x) for x in seq} if p(F["fixed_p"])}
-                ve["initial"] = [(x, unit_of(units, x) in fixed_units) for x in seq]
+                # a fixed unit with several stops: in half of the cases only some of its stops carry the flag (a unit is
+                # fixed as soon as one of its stops is)
+                flagged = set()
+                for ui in sorted(fixed_units):
+                    us = [x for x in seq if unit_of(units, x) == ui]
+                    if len(us) > 1 and p(0.5):
+                        flagged |= set(rng.sample(us, rng.randint(1, len(us) - 1)))
+                    else:
+                        flagged |= set(us)
+                ve["initial"] = [(x, x in flagged) for x in seq]
     user = []
     if F.get("user"):
         for _ in range(rng.randint(1, 2)):
